@@ -177,6 +177,7 @@ node<P> CoverTreeWrapper<P, DistanceCallback>::batch_insert(DistanceCallback& dc
                                                             v_array<ds_node<P>>& consumed_set,
                                                             v_array<v_array<ds_node<P>>>& stack)
 {
+    TAPKEE_VERIF_TICK("covertree:batch_insert");
     if (size(point_set) == 0)
         return new_leaf(p);
     else
@@ -587,6 +588,7 @@ void CoverTreeWrapper<P, DistanceCallback>::internal_batch_nearest_neighbor(
     int current_scale, int max_scale, std::vector<ScalarType>& upper_bound, v_array<v_array<P>>& results,
     v_array<v_array<v_array<d_node<P>>>>& spare_cover_sets, v_array<v_array<d_node<P>>>& spare_zero_sets)
 {
+    TAPKEE_VERIF_TICK("covertree:internal_batch_nearest_neighbor");
     if (current_scale > max_scale) // All remaining points are in the zero set.
         brute_nearest(dcb, query, zero_set, upper_bound, results, spare_zero_sets);
     else if (query->scale <= current_scale && query->scale != 100)
